@@ -125,6 +125,20 @@ func (w *workspace) genAll() {
 		s.loxHung = r.TimedOut
 		s.loxOut = string(r.Out) + string(r.Err)
 	})
+	// a run that hit the time limit while 16 of them (and whatever else the machine is doing) competed for the
+	// CPU is repeated alone with a generous limit before it counts as a failure of lox
+	for _, s := range w.specs {
+		if s.goText == "" || !s.loxHung {
+			continue
+		}
+		r := run(w.dir, 15*time.Minute, nil, loxBin, s.dir)
+		s.loxCode = r.Code
+		s.loxHung = r.TimedOut
+		s.loxOut = string(r.Out) + string(r.Err)
+		if r.TimedOut {
+			s.loxOut += "\n(lox did not exit within 15 minutes)"
+		}
+	}
 }
 
 // buildAll compiles every generated package into bin/<name>.
